@@ -236,3 +236,15 @@ theorem c17_sites :
   decide
 
 end KM.LoginDest
+
+namespace KM.LoginDest
+
+/-- **Filter source** (regenerated): the two functions the hand-written `filter` transcribes read,
+after whitespace normalisation, exactly as they did when the model was written. Any edit to the
+filter — even a harmless one — breaks this tie and sends the check looking for a failing input. -/
+theorem c17_filter_source :
+    KM.Gen.getLoginDestinationSrc = "{ loginDestination := profilePath if r.FormValue(\"login_destination\") != \"\" { inboundLoginDestination := r.Form.Get(\"login_destination\") if isSafeLoginDestination(inboundLoginDestination) { loginDestination = inboundLoginDestination } } return loginDestination }".toList ∧
+    KM.Gen.isSafeLoginDestinationSrc = "{ if !strings.HasPrefix(destination, \"/\") || strings.HasPrefix(destination, \"//\") { return false } for _, c := range destination { if c == '\\\\' || unicode.IsControl(c) { return false } } return true }".toList := by
+  exact ⟨rfl, rfl⟩
+
+end KM.LoginDest
